@@ -575,6 +575,154 @@ pub fn track_histories() -> Vec<Vec<AOp>> {
 }
 
 
+
+// ------------------------------------------------------------------------ long histories
+
+/// Histories far longer than any pair or triple, on ONE fresh thread, for one family of calls:
+/// (A) a call x repeated after exactly g - 1 identical filler calls for g around 2^8, 2^10, 2^12 and 2^16
+///     (a per-thread or per-process call counter that wraps, stale slots that are never refreshed);
+/// (B) a run of `keys.len()` DISTINCT calls (70 000: more than any table of 2^8, 2^10, 2^11, 2^12 or 2^16
+///     entries holds) in which, after the i-th distinct call for i around those sizes, earlier calls are
+///     repeated (the first, the latest, the one 16 / 1024 / 65 536 calls back, ...).
+/// Oracle: a repeated call returns bit for bit what its first occurrence returned, and x / the filler return
+/// what they return as the first call of a fresh thread.
+pub fn long_history(name: &str, x: AOp, filler: AOp, keys: Vec<AOp>) -> (u64, Vec<Viol>) {
+    let (x2, f2) = (x.clone(), filler.clone());
+    let cold_x = in_fresh_thread(move || run_aop(&x2));
+    let cold_f = in_fresh_thread(move || run_aop(&f2));
+    let name = name.to_string();
+    in_fresh_thread(move || {
+        let mut calls = 0u64;
+        let mut out: Vec<Viol> = Vec::new();
+        // (A)
+        let mut since = 0u64; // calls since the last x
+        let first = run_aop(&x);
+        calls += 1;
+        if first != cold_x {
+            out.push(viol("C13/history-changes-result", format!("[{}] first call differs from the cold value", name), json!({"kind": "long-history", "family": name, "mode": "A", "gap": 0})));
+        }
+        for g in [255u64, 256, 257, 1023, 1024, 1025, 4096, 65535, 65536, 65537] {
+            while since + 1 < g {
+                let r = run_aop(&filler);
+                calls += 1;
+                since += 1;
+                if since % 4099 == 1 && r != cold_f {
+                    out.push(viol("C13/history-changes-result", format!("[{}] the filler call {} returns {:x?} after {} calls, {:x?} as a first call", name, filler.json(), trunc(&r), calls, trunc(&cold_f)), json!({"kind": "long-history", "family": name, "mode": "A", "gap": g})));
+                    return (calls, out);
+                }
+            }
+            let r = run_aop(&x);
+            calls += 1;
+            since = 0;
+            if r != cold_x {
+                out.push(viol(
+                    "C13/history-changes-result",
+                    format!("[{}] {} returns {:x?} when it is repeated after exactly {} other calls ({}) on the same thread, but {:x?} as the first call of a fresh thread", name, x.json(), trunc(&r), g - 1, filler.json(), trunc(&cold_x)),
+                    json!({"kind": "long-history", "family": name, "mode": "A", "gap": g}),
+                ));
+                return (calls, out);
+            }
+        }
+        // (B)
+        let marks: Vec<usize> = vec![15, 16, 17, 255, 256, 257, 1023, 1024, 1025, 2047, 2048, 2049, 4095, 4096, 4097, 16384, 32768, 65534, 65535, 65536, 65537, 65600];
+        let mut firsts: Vec<Res> = Vec::with_capacity(keys.len());
+        for i in 0..keys.len() {
+            firsts.push(run_aop(&keys[i]));
+            calls += 1;
+            let revisit_all = marks.contains(&i) || i + 1 == keys.len();
+            if revisit_all || i % 9973 == 0 {
+                let mut back: Vec<usize> = vec![0, i, i / 2];
+                for d in [1usize, 15, 16, 17, 255, 256, 1023, 1024, 1025, 2048, 4096, 65535, 65536] {
+                    if i >= d {
+                        back.push(i - d);
+                    }
+                }
+                if i + 1 == keys.len() {
+                    back.extend((0..keys.len()).step_by(211));
+                    back.extend(65530..65545.min(keys.len()));
+                }
+                for j in back {
+                    let r = run_aop(&keys[j]);
+                    calls += 1;
+                    if r != firsts[j] {
+                        out.push(viol(
+                            "C13/history-changes-result",
+                            format!("[{}] distinct call #{} ({}) returned {:x?} the first time and {:x?} when repeated after {} distinct calls had been made on the thread", name, j, keys[j].json(), trunc(&firsts[j]), trunc(&r), i + 1),
+                            json!({"kind": "long-history", "family": name, "mode": "B", "after": i, "repeat": j}),
+                        ));
+                        return (calls, out);
+                    }
+                }
+            }
+        }
+        (calls, out)
+    })
+}
+
+/// the families of long histories: (name, x, filler, distinct keys)
+pub fn long_families(quick: bool) -> Vec<(String, AOp, AOp, Vec<AOp>)> {
+    let k: usize = 70_000;
+    let base = crate::refcodec::all_cells(0);
+    let q = crate::refcodec::children(base[4])[1];
+    let r12 = {
+        let mut c = q;
+        for d in [1usize, 3, 0, 2, 2, 1, 0, 3, 1, 2, 0] {
+            c = crate::refcodec::children(c)[d];
+        }
+        c
+    };
+    // 65 536 descendants at r=20 of one r=12 cell, then the descendants of its sibling
+    let mut fine: Vec<u64> = crate::refcodec::descendants(r12, 20);
+    fine.extend(crate::refcodec::descendants(crate::refcodec::children(crate::refcodec::parent(r12).unwrap())[3], 20).into_iter().take(k - 65536));
+    fine.truncate(k);
+    let far = subj::lookup(-120.0, -40.0, 12).unwrap_or(0);
+    let mut out: Vec<(String, AOp, AOp, Vec<AOp>)> = Vec::new();
+    // lookups: distinct points on a fine grid of one region (each in its own r=12 cell or nearly so)
+    {
+        let keys: Vec<AOp> = (0..k).map(|i| AOp::Lookup(5.0 + 0.011 * (i % 300) as f64, 40.0 + 0.009 * (i / 300) as f64, 12)).collect();
+        out.push(("lookup r=12".into(), AOp::Lookup(12.3, 45.6, 12), AOp::Lookup(-120.0, -40.0, 12), keys));
+    }
+    {
+        let keys: Vec<AOp> = fine.iter().map(|&c| AOp::Centre(c)).collect();
+        out.push(("centre r=20".into(), AOp::Centre(fine[7]), AOp::Centre(far), keys));
+    }
+    if !quick {
+        let keys: Vec<AOp> = fine.iter().map(|&c| AOp::Boundary(c, Some(1))).collect();
+        out.push(("boundary r=20".into(), AOp::Boundary(fine[9], Some(1)), AOp::Boundary(far, Some(1)), keys));
+        let keys: Vec<AOp> = (0..k).map(|i| AOp::Lookup(-60.0 + 0.00011 * (i % 300) as f64, -20.0 + 0.00009 * (i / 300) as f64, 20)).collect();
+        out.push(("lookup r=20".into(), AOp::Lookup(12.3, 45.6, 20), AOp::Lookup(-120.0, -40.0, 20), keys));
+    }
+    {
+        // compact of distinct sibling groups (with one extra cell), uncompact of distinct cells
+        let keys: Vec<AOp> = fine
+            .chunks(4)
+            .take(k / 4)
+            .map(|g| {
+                let mut v = g.to_vec();
+                v.push(far);
+                AOp::Compact(v)
+            })
+            .collect();
+        let x = AOp::Compact({
+            let mut v = crate::refcodec::children(fine[100] >> 0).into_iter().collect::<Vec<u64>>();
+            v.push(fine[3]);
+            v
+        });
+        out.push(("compact".into(), x, AOp::Compact(vec![far]), keys));
+        let keys: Vec<AOp> = fine.iter().step_by(if quick { 4 } else { 1 }).map(|&c| AOp::Uncompact(vec![c], 21)).collect();
+        out.push(("uncompact".into(), AOp::Uncompact(vec![fine[5], fine[6]], 22), AOp::Uncompact(vec![far], 13), keys));
+    }
+    {
+        let keys: Vec<AOp> = fine.iter().map(|&c| AOp::ParentTo(c, 7)).collect();
+        out.push(("parent".into(), AOp::ParentTo(fine[11], 3), AOp::Parent(far), keys));
+        let keys: Vec<AOp> = fine.iter().map(|&c| AOp::ChildrenTo(c, 22)).collect();
+        out.push(("children".into(), AOp::ChildrenTo(fine[13], 23), AOp::Children(far), keys));
+        let keys: Vec<AOp> = fine.iter().map(|&c| AOp::Deser(c)).collect();
+        out.push(("deserialize".into(), AOp::Deser(fine[17]), AOp::Deser(far), keys));
+    }
+    out
+}
+
 // ------------------------------------------------------------------------ pair circuits
 
 /// Every ordered pair (a, b) of `ops` as two consecutive calls, all on ONE fresh thread (2 n^2 calls):
@@ -1265,6 +1413,212 @@ pub fn race_child(assign_json: &str) {
     println!("{}", serde_json::to_string(&rs).unwrap());
 }
 
+
+// ======================================================================== first histories in fresh processes
+// Process-wide state (a OnceLock filled by whatever call comes first, a budget tuned on the first 1000
+// calls, a table that is exact until it is full) cannot be reset inside one process: every check process
+// has ONE first call. This pass starts one fresh process per *prelude* (a short named history made of
+// constants only), lets it run the prelude and then a fixed battery of calls, and requires all processes
+// to print the same bits. Preludes x battery are enumerated completely; each process is one execution.
+
+pub fn prelude_names() -> Vec<String> {
+    let mut v: Vec<String> = vec!["none", "world-to-0", "world-to-1", "world-to-2", "world-targets-descending", "world-targets-five", "uncompact-world-3", "easy-lookups-1000", "easy-lookups-70000", "fine-lookup-first", "coarse-lookup-first", "foreign-triangle", "res0-first", "boundary-first", "compact-first", "hex-first", "bad-id-first", "many-fine-cells", "threads-300"]
+        .into_iter()
+        .map(String::from)
+        .collect();
+    for i in 0..race_alphabet().len() {
+        v.push(format!("op-{}", i));
+    }
+    v
+}
+
+fn run_prelude(name: &str) {
+    let look = |lon: f64, lat: f64, r: i32| {
+        let _ = subj::lookup(lon, lat, r);
+    };
+    match name {
+        "none" => {}
+        "world-to-0" => drop(subj::children(0, Some(0))),
+        "world-to-1" => drop(subj::children(0, Some(1))),
+        "world-to-2" => drop(subj::children(0, Some(2))),
+        "world-targets-descending" => {
+            for t in [4, 3, 2, 1, 0] {
+                let _ = subj::children(0, Some(t));
+            }
+        }
+        "world-targets-five" => {
+            for t in [0, 1, 2, 3, 4, 5, 0, 1] {
+                let _ = subj::uncompact(&[0], t);
+            }
+        }
+        "uncompact-world-3" => drop(subj::uncompact(&[0], 3)),
+        "easy-lookups-1000" | "easy-lookups-70000" => {
+            // the same cell centre again and again: the easiest possible lookups
+            let n = if name.ends_with("70000") { 70_000 } else { 1000 };
+            let c = crate::refcodec::encode(crate::refcodec::Tuple { face: 2, quintant: 1, s: 0x155, res: 6 }).unwrap();
+            if let Ok((lon, lat)) = subj::centre(c) {
+                for _ in 0..n {
+                    look(lon, lat, 6);
+                }
+            }
+        }
+        "fine-lookup-first" => look(12.3, 45.6, 29),
+        "coarse-lookup-first" => look(-77.0, -12.0, 0),
+        "foreign-triangle" => {
+            use a5::coordinate_systems::{Cartesian, FaceTriangle, SphericalTriangle};
+            let _ = subj::guard(|| {
+                let st = SphericalTriangle::new(Cartesian::new(0.0, 0.0, 1.0), Cartesian::new(1.0, 0.0, 0.0), Cartesian::new(0.0, 1.0, 0.0));
+                let ft = FaceTriangle::new(Face::new(0.0, 0.0), Face::new(1.0, 0.0), Face::new(0.0, 1.0));
+                let p = a5::projections::polyhedral::PolyhedralProjection::new();
+                let c = p.inverse(Face::new(0.25, 0.25), ft, st);
+                Ok(c.x())
+            });
+        }
+        "res0-first" => drop(subj::guard(|| a5::get_res0_cells())),
+        "boundary-first" => {
+            let c = crate::refcodec::encode(crate::refcodec::Tuple { face: 7, quintant: 3, s: 0x2d, res: 5 }).unwrap();
+            let _ = subj::boundary(c, true, Some(7));
+        }
+        "compact-first" => drop(subj::compact(&crate::refcodec::all_cells(1))),
+        "hex-first" => drop(subj::guard_val(|| a5::hex_to_u64("ffffffffffffffffff"))),
+        "bad-id-first" => {
+            let _ = subj::centre(1);
+            let _ = subj::children(u64::MAX, Some(3));
+            let _ = subj::uncompact(&[7], 3);
+        }
+        "many-fine-cells" => {
+            // more distinct fine cells than any 2^16-entry table holds, then the battery revisits some
+            let base = crate::refcodec::all_cells(0);
+            let q = crate::refcodec::children(base[4])[1];
+            let mut c = q;
+            for d in [1usize, 3, 0, 2, 2, 1, 0, 3, 1, 2, 0] {
+                c = crate::refcodec::children(c)[d];
+            }
+            let mut fine = crate::refcodec::descendants(c, 20);
+            fine.extend(crate::refcodec::descendants(crate::refcodec::children(crate::refcodec::parent(c).unwrap())[3], 20).into_iter().take(64));
+            for x in fine {
+                let _ = subj::centre(x);
+            }
+        }
+        "threads-300" => {
+            for i in 0..300 {
+                let _ = std::thread::spawn(move || {
+                    let _ = subj::lookup(i as f64 * 0.7 - 100.0, (i % 90) as f64 - 45.0, (i % 30) as i32);
+                })
+                .join();
+            }
+        }
+        other => {
+            if let Some(i) = other.strip_prefix("op-").and_then(|x| x.parse::<usize>().ok()) {
+                let a = race_alphabet();
+                let _ = run_aop(&a[i % a.len()]);
+            }
+        }
+    }
+}
+
+/// child-process entry: prelude by name, then the battery read from a JSON file; prints one JSON array of results
+pub fn first_child(prelude: &str, battery_file: &str) {
+    let body = std::fs::read_to_string(battery_file).unwrap_or_else(|_| "[]".into());
+    let ops: Vec<AOp> = serde_json::from_str::<Value>(&body).ok().and_then(|v| v.as_array().map(|a| a.iter().filter_map(AOp::from_json).collect())).unwrap_or_default();
+    run_prelude(prelude);
+    // the battery on a fresh thread of this process and once more on the main thread
+    let ops2 = ops.clone();
+    let a: Vec<Res> = in_fresh_thread(move || ops2.iter().map(run_aop).collect());
+    let b: Vec<Res> = ops.iter().map(run_aop).collect();
+    println!("{}", serde_json::to_string(&(a, b)).unwrap());
+}
+
+/// the battery: public calls whose results process-wide state could change (built in the parent, which may
+/// use the library freely)
+pub fn first_battery(quick: bool) -> Vec<AOp> {
+    let mut ops = api_ops();
+    let base = crate::refcodec::all_cells(0);
+    for t in -1..=3 {
+        ops.push(AOp::ChildrenTo(0, t));
+        ops.push(AOp::Uncompact(vec![0], t));
+    }
+    ops.push(AOp::Uncompact(vec![0], 4));
+    let fine = crate::refcodec::encode(crate::refcodec::Tuple { face: 9, quintant: 2, s: 0x1b2d3, res: 11 }).unwrap();
+    for t in [0, 1, 2, 5] {
+        ops.push(AOp::ParentTo(fine, t));
+        ops.push(AOp::ParentTo(base[5], -1));
+    }
+    // lookups that are not answered by their first estimate (the ones a trimmed probe budget loses)
+    for fam in lookup_neighbourhoods(true).into_iter().take(if quick { 4 } else { 12 }) {
+        ops.extend(fam.into_iter().take(40));
+    }
+    // cells around the 65 536th fine cell of the "many-fine-cells" prelude
+    {
+        let q = crate::refcodec::children(base[4])[1];
+        let mut c = q;
+        for d in [1usize, 3, 0, 2, 2, 1, 0, 3, 1, 2, 0] {
+            c = crate::refcodec::children(c)[d];
+        }
+        let sib = crate::refcodec::descendants(crate::refcodec::children(crate::refcodec::parent(c).unwrap())[3], 20);
+        let own = crate::refcodec::descendants(c, 20);
+        for x in [own[0], own[1], own[65535], sib[0], sib[1], sib[2], sib[63]] {
+            ops.push(AOp::Centre(x));
+            ops.push(AOp::Boundary(x, Some(1)));
+        }
+    }
+    ops
+}
+
+pub fn first_history_pass(verif_dir: &str, quick: bool) -> (u64, u64, Vec<Viol>) {
+    let exe = format!("{}/target/release/a5check", verif_dir);
+    let battery = first_battery(quick);
+    let dir = format!("{}/target/first-history", verif_dir);
+    let _ = std::fs::create_dir_all(&dir);
+    let file = format!("{}/battery-{}.json", dir, std::process::id());
+    if std::fs::write(&file, serde_json::to_string(&battery.iter().map(|o| o.json()).collect::<Vec<_>>()).unwrap()).is_err() {
+        return (0, 0, vec![viol("MACHINERY/first-history", "cannot write the battery file".into(), json!({"kind": "machinery"}))]);
+    }
+    let names = prelude_names();
+    let outs: Vec<(String, Option<(Vec<Res>, Vec<Res>)>)> = names
+        .par_iter()
+        .map(|n| {
+            let o = std::process::Command::new(&exe).args(["C13", "--first-child", n, &file]).env("VERIF_DIR", verif_dir).output();
+            let parsed = o.ok().and_then(|o| {
+                let s = String::from_utf8_lossy(&o.stdout).to_string();
+                s.lines().rev().find(|l| l.starts_with('[')).and_then(|l| serde_json::from_str::<(Vec<Res>, Vec<Res>)>(l).ok())
+            });
+            (n.clone(), parsed)
+        })
+        .collect();
+    let _ = std::fs::remove_file(&file);
+    let mut out = Vec::new();
+    let reference = outs.iter().find(|(n, _)| n == "none").and_then(|(_, r)| r.clone());
+    let reference = match reference {
+        Some(r) => r,
+        None => return (0, 0, vec![viol("C13/first-history", "the process without a prelude produced no output (it died)".into(), json!({"kind": "first-history", "prelude": "none"}))]),
+    };
+    let mut compared = 0u64;
+    for (n, r) in &outs {
+        match r {
+            None => out.push(viol("C13/first-history", format!("the fresh process with prelude '{}' produced no output (a call aborted or the process died)", n), json!({"kind": "first-history", "prelude": n}))),
+            Some((a, b)) => {
+                for (which, v) in [("a fresh thread", a), ("the main thread", b)] {
+                    for (i, x) in v.iter().enumerate() {
+                        compared += 1;
+                        if i < reference.0.len() && *x != reference.0[i] {
+                            out.push(viol(
+                                "C13/first-history",
+                                format!("in a fresh process whose history starts with the prelude '{}', {} (on {}) returns {:x?}; in a fresh process without the prelude it returns {:x?}", n, battery[i].json(), which, trunc(x), trunc(&reference.0[i])),
+                                json!({"kind": "first-history", "prelude": n, "op": battery[i].json()}),
+                            ));
+                            break;
+                        }
+                    }
+                }
+            }
+        }
+    }
+    // one violation per prelude is enough
+    out.truncate(6);
+    (names.len() as u64, compared, out)
+}
+
 // ======================================================================== Miri schedule pass
 // Miri interprets the program and schedules its threads itself: deterministically for a given seed,
 // with preemptions possible at every basic block - also inside code that has no hook points. Each
@@ -1588,6 +1942,25 @@ pub fn run(tier: &str, verif_dir: &str) -> Report {
         rep.set("pair_circuits", json!({"families": fams.len(), "lookup_neighbourhoods": nneigh, "calls": calls, "largest_family": fams.iter().map(|f| f.len()).max().unwrap_or(0)}));
         api_hist.fetch_add(fams.iter().map(|f| (f.len() * f.len()) as u64).sum::<u64>(), Ordering::Relaxed);
     }
+    // first histories in fresh processes
+    {
+        let (procs, compared, v) = first_history_pass(verif_dir, quick);
+        rep.sink.extend(v);
+        rep.set("first_history_processes", json!({"preludes": procs, "results_compared": compared}));
+    }
+    // long histories (counter wraps, tables that fill up), one family after the other so that per-process
+    // call counts seen by one family are not perturbed by the others
+    {
+        let mut calls = 0u64;
+        let fams = long_families(quick);
+        let nf = fams.len();
+        for (name, x, filler, keys) in fams {
+            let (c, v) = long_history(&name, x, filler, keys);
+            calls += c;
+            rep.sink.extend(v);
+        }
+        rep.set("long_histories", json!({"families": nf, "calls": calls, "distinct_calls_per_family": 70000, "exact_gaps": [255, 256, 257, 1023, 1024, 1025, 4096, 65535, 65536, 65537]}));
+    }
     let tn = if quick { 12.min(n) } else { n.min(60) };
     let tsel: Vec<usize> = (0..n).step_by((n / tn).max(1)).take(tn).collect();
     let triples: Vec<Vec<usize>> = tsel.iter().flat_map(|&a| tsel.iter().flat_map(move |&b| (0..n).map(move |c| vec![a, b, c]))).collect();
@@ -1758,6 +2131,18 @@ pub fn run(tier: &str, verif_dir: &str) -> Report {
 fn noop_hook(_p: Point) {}
 
 pub fn replay(case: &Value, verif_dir: &str) -> Vec<Viol> {
+    if case["kind"] == "first-history" {
+        return first_history_pass(verif_dir, false).2;
+    }
+    if case["kind"] == "long-history" {
+        let fam = case["family"].as_str().unwrap_or("");
+        for (name, x, filler, keys) in long_families(false) {
+            if name == fam {
+                return long_history(&name, x, filler, keys).1;
+            }
+        }
+        return vec![];
+    }
     if case["kind"] == "circuit" {
         let ops: Vec<AOp> = case["ops"].as_array().map(|a| a.iter().filter_map(AOp::from_json).collect()).unwrap_or_default();
         let upto = case["upto"].as_u64().map(|x| x as usize);
